@@ -19,6 +19,13 @@
                            get_active_task (scheduler.py 336) as seen by a body
      asynq/tools.py        acached_per_instance 165-209, alru_cache 212-252, aretry 286-313,
                            DeduplicateDecoratorBinder/DeduplicateDecorator/deduplicate 333-428
+     lookup history        one decorated attribute in a hierarchy C, Sub(C), Sub2(C): every lookup calls __get__
+                           (owner, cls) on the ONE decorator object stored in C.__dict__; [dstate] is what that object
+                           keeps between lookups, [get_step] one lookup (hands out a target, leaves the state as it
+                           was: decorators.py 263-280 builds new_self, qcore DecoratorBase.__get__ 96-102 a binder),
+                           [resolve hs d b] the lookup through path b after the earlier lookups hs.  The argument-keyed
+                           caches of alru_cache / acached_per_instance are NOT part of this state (the harness'
+                           warm-up calls use argument values the call under test never uses).
    ARGS abbreviates Python's star-args, star-star-kwargs.
    Python's own attribute lookup (function / classmethod / staticmethod / bound method objects) is
    modelled by [py_get]; it is not verified, the exhaustive correspondence run checks it.
@@ -50,7 +57,10 @@ Inductive binding :=
 | BCmInst         (* classmethod, obj.m(...)                                    *)
 | BCmSub          (* classmethod, Sub.m(...)                                    *)
 | BSmClass        (* staticmethod, C.m(...)                                     *)
-| BSmInst.        (* staticmethod, obj.m(...)                                   *)
+| BSmInst         (* staticmethod, obj.m(...)                                   *)
+| BSub2           (* sub2obj.m(...)  with a sibling  class Sub2(C)              *)
+| BCmSub2         (* classmethod, Sub2.m(...)                                   *)
+| BCmSubInst.     (* classmethod, subobj.m(...)                                 *)
 
 Inductive form :=
 | Sync                 (* t(ARGS)                                      *)
@@ -84,7 +94,7 @@ Inductive caller :=
 | CallerHijacked.     (* it was finished early with the callee's value (AsyncTaskResult escaped) *)
 Definition E_TASKRESULT : exn := -30.     (* AsyncTaskResult reaching the top level as an exception *)
 Inductive kname := Ka | Kb | Kk | Kz.            (* Kz: a keyword the body does not have *)
-Inductive recv := RObj | RSubObj | RCls | RSubCls.
+Inductive recv := RObj | RSubObj | RCls | RSubCls | RSub2Obj | RSub2Cls.
 Inductive mtype := TNone | TClassmethod | TStaticmethod.     (* DecoratorBase.type *)
 Inductive style := SFunc | SSelf | SCls.         (* does the raw function take a receiver first *)
 Inductive tag := FnBody | SyncBody.              (* fn / sync_fn *)
@@ -103,7 +113,7 @@ Definition kname_eqb (x y : kname) : bool :=
 
 Definition mtype_of (b : binding) : mtype :=
   match b with
-  | BCmClass | BCmInst | BCmSub => TClassmethod
+  | BCmClass | BCmInst | BCmSub | BCmSub2 | BCmSubInst => TClassmethod
   | BSmClass | BSmInst => TStaticmethod
   | _ => TNone
   end.
@@ -111,7 +121,7 @@ Definition mtype_of (b : binding) : mtype :=
 Definition style_of (b : binding) : style :=
   match b with
   | BFunc | BSmClass | BSmInst => SFunc
-  | BInst | BClass | BSub => SSelf
+  | BInst | BClass | BSub | BSub2 => SSelf
   | _ => SCls
   end.
 
@@ -121,8 +131,10 @@ Definition access (b : binding) : option (option recv * recv) :=
   | BFunc => None
   | BInst | BCmInst | BSmInst => Some (Some RObj, RCls)
   | BClass | BCmClass | BSmClass => Some (None, RCls)
-  | BSub => Some (Some RSubObj, RSubCls)
+  | BSub | BCmSubInst => Some (Some RSubObj, RSubCls)
   | BCmSub => Some (None, RSubCls)
+  | BSub2 => Some (Some RSub2Obj, RSub2Cls)
+  | BCmSub2 => Some (None, RSub2Cls)
   end.
 
 (* Python's function.__get__ / classmethod.__get__ / staticmethod.__get__: what gets bound *)
@@ -137,19 +149,43 @@ Definition base_get (m : mtype) (owner : option recv) (cls : recv) : tkind * opt
   | TNone => match owner with None => (KBinder, None) | Some o => (KBinder, Some o) end
   end.
 
-(* what `t` is after looking the decorated attribute up *)
-Definition resolve (d : deco) (b : binding) : target :=
+(* ---- the lookup history of one decorated attribute over a class hierarchy C, Sub(C), Sub2(C) ----
+   The object every lookup goes through is the ONE decorator object stored in C.__dict__ (Python calls
+   its __get__(owner, cls) on every attribute access, through whichever class or instance).  What it
+   keeps between lookups: DecoratorBase.type (qcore 77-86) and its sync_fn, which stays the UNBOUND
+   one: only the per-access copy new_self made by AsyncAndSyncPairDecorator.__get__ (asynq/decorators.py
+   263-280) carries a bound sync_fn, and that copy is handed out, not stored. *)
+Record dstate := mkDS { ds_type : mtype; ds_sync : option recv }.
+Definition ds_init (b : binding) : dstate := mkDS (mtype_of b) None.
+
+(* __get__(owner, cls) on the stored decorator object in state s: what the lookup hands out *)
+Definition resolve_at (d : deco) (s : dstate) (owner : option recv) (cls : recv) : target :=
+  let m := ds_type s in
+  match d with
+  | DProxyPure => mkT KPy (py_get m owner cls) None
+  | DPair =>      (* AsyncAndSyncPairDecorator.__get__: sync_fn.__get__(owner, cls) (a method that is
+                     already bound stays bound to what it was), re-wrap fn in self.type, new decorator,
+                     then the base __get__ *)
+    let '(k, i) := base_get m owner cls in
+    mkT k i (match ds_sync s with Some r => Some r | None => py_get m owner cls end)
+  | _ => let '(k, i) := base_get m owner cls in mkT k i None
+  end.
+
+(* one lookup through path b: what it hands out and the stored object AFTERWARDS.  None of the __get__
+   implementations writes to self (pair: 263-280 builds new_self; DecoratorBase.__get__ 96-102 builds
+   a binder; function/classmethod/staticmethod objects are immutable): the state comes back unchanged. *)
+Definition get_step (d : deco) (s : dstate) (b : binding) : option target * dstate :=
+  (match access b with None => None | Some (owner, cls) => Some (resolve_at d s owner cls) end, s).
+
+Fixpoint after_hist (d : deco) (s : dstate) (hs : list binding) : dstate :=
+  match hs with [] => s | b :: r => after_hist d (snd (get_step d s b)) r end.
+
+(* what `t` is after looking the decorated attribute up through path b, the same attribute having been
+   looked up before through the paths hs (other classes / instances of the hierarchy) *)
+Definition resolve (hs : list binding) (d : deco) (b : binding) : target :=
   match access b with
   | None => match d with DProxyPure => mkT KPy None None | _ => mkT KDeco None None end
-  | Some (owner, cls) =>
-    let m := mtype_of b in
-    match d with
-    | DProxyPure => mkT KPy (py_get m owner cls) None
-    | DPair =>      (* AsyncAndSyncPairDecorator.__get__: sync_fn.__get__(owner, cls), re-wrap fn in
-                       self.type, new decorator, then the base __get__ *)
-      let '(k, i) := base_get m owner cls in mkT k i (py_get m owner cls)
-    | _ => let '(k, i) := base_get m owner cls in mkT k i None
-    end
+  | Some (owner, cls) => resolve_at d (after_hist d (ds_init b) hs) owner cls
   end.
 
 Definition deco_has_asynq (d : deco) : bool :=
@@ -159,8 +195,8 @@ Definition binder_has_asynq (d : deco) : bool :=
   match d with DPure => false | _ => true end.
 
 (* hasattr(t, "asynq") *)
-Definition has_asynq_attr (d : deco) (b : binding) : bool :=
-  match t_kind (resolve d b) with
+Definition has_asynq_attr (hs : list binding) (d : deco) (b : binding) : bool :=
+  match t_kind (resolve hs d b) with
   | KPy => false
   | KDeco => deco_has_asynq d
   | KBinder => binder_has_asynq d
@@ -168,18 +204,18 @@ Definition has_asynq_attr (d : deco) (b : binding) : bool :=
 
 (* is_pure_async_fn(t): the is_pure_async_fn attribute when there is one, else via .fn, else False.
    AsyncDecoratorBinder has neither attribute. *)
-Definition is_pure (d : deco) (b : binding) : bool :=
-  match t_kind (resolve d b) with
+Definition is_pure (hs : list binding) (d : deco) (b : binding) : bool :=
+  match t_kind (resolve hs d b) with
   | KPy => true                                            (* marker set by async_proxy(pure=True) *)
   | KDeco | KBinder => match d with DPure => true | _ => false end
   end.
 
-Definition has_async (d : deco) (b : binding) : bool := has_asynq_attr d b.
-Definition is_async (d : deco) (b : binding) : bool := has_asynq_attr d b || is_pure d b.
-Definition get_async_kind (d : deco) (b : binding) : gkind :=
-  if has_asynq_attr d b then GAsynqAttr else if is_pure d b then GSelf else GNone.
-Definition get_async_or_sync_kind (d : deco) (b : binding) : gkind :=
-  if has_asynq_attr d b then GAsynqAttr else GSelf.
+Definition has_async (hs : list binding) (d : deco) (b : binding) : bool := has_asynq_attr hs d b.
+Definition is_async (hs : list binding) (d : deco) (b : binding) : bool := has_asynq_attr hs d b || is_pure hs d b.
+Definition get_async_kind (hs : list binding) (d : deco) (b : binding) : gkind :=
+  if has_asynq_attr hs d b then GAsynqAttr else if is_pure hs d b then GSelf else GNone.
+Definition get_async_or_sync_kind (hs : list binding) (d : deco) (b : binding) : gkind :=
+  if has_asynq_attr hs d b then GAsynqAttr else GSelf.
 
 Definition ctx_active (c : ctx) : active := match c with CTop => ANone | _ => ACaller end.
 Definition caller_of (c : ctx) : caller := match c with CTop => CallerNone | _ => CallerOwn end.
@@ -199,6 +235,7 @@ Section Args.
   Variable raises : A -> bool.       (* the body raises VErr when its parameter a satisfies this *)
   Variables dflt_b dflt_k : A.       (* defaults of  def body([recv,] a, b=dflt_b, *, k=dflt_k) *)
   Variable cx : ctx.                 (* where the calling form is executed *)
+  Variable hs : list binding.        (* earlier lookups of the same decorated attribute (paths) *)
 
   Inductive arg := AObj (r : recv) | AVal (a : A).
   Definition kwargs := list (kname * arg).
@@ -318,7 +355,7 @@ Section Args.
 
   (* t.asynq(ARGS) *)
   Definition target_asynq (d : deco) (b : binding) (bk : bodykind) (pos : list arg) (kw : kwargs) : option effect :=
-    let t := resolve d b in
+    let t := resolve hs d b in
     match t_kind t with
     | KPy => None
     | KDeco => deco_asynq d (style_of b) bk pos kw
@@ -328,7 +365,7 @@ Section Args.
 
   (* t(ARGS) *)
   Definition target_call (d : deco) (b : binding) (bk : bodykind) (pos : list arg) (kw : kwargs) : retkind * effect :=
-    let t := resolve d b in
+    let t := resolve hs d b in
     match t_kind t with
     | KPy => (KFuture, async_effect d (style_of b) bk (prepend (t_inst t) pos) kw)    (* bound method *)
     | KDeco => deco_call d (style_of b) bk (t_sync t) pos kw
@@ -341,7 +378,7 @@ Section Args.
 
   (* async_call's body, 407-414 *)
   Definition async_call_effect (d : deco) (b : binding) (bk : bodykind) (pos : list arg) (kw : kwargs) : effect :=
-    if is_pure d b then snd (target_call d b bk pos kw)
+    if is_pure hs d b then snd (target_call d b bk pos kw)
     else match target_asynq d b bk pos kw with
          | Some e => e
          | None =>                                            (* ConstFuture(fn(ARGS)) *)
@@ -372,13 +409,13 @@ Section Args.
     | AsyncCall => finish SRetFuture (async_call_effect d b bk pos kw)
     | YieldDirect => via_call SNotAFuture d b bk pos kw
     | ViaGetAsync =>
-      match get_async_kind d b with
+      match get_async_kind hs d b with
       | GNone => (SNoAsyncFn, [], RErr E_ATTR)
       | GAsynqAttr => via_asynq d b bk pos kw
       | GSelf => via_call SNotAFuture d b bk pos kw
       end
     | ViaGetAsyncOrSync =>
-      match get_async_or_sync_kind d b with
+      match get_async_or_sync_kind hs d b with
       | GAsynqAttr => via_asynq d b bk pos kw
       | _ => via_call SRetValue d b bk pos kw
       end
@@ -415,25 +452,60 @@ Arguments RResult {A} v.
 (* the bindings each decorator is written for *)
 Definition valid (d : deco) (b : binding) : bool :=
   match d with
-  | DRetry | DLru => match b with BFunc | BInst | BClass | BSub => true | _ => false end
-  | DCpi => match b with BInst | BClass | BSub => true | _ => false end
+  | DRetry | DLru => match b with BFunc | BInst | BClass | BSub | BSub2 => true | _ => false end
+  | DCpi => match b with BInst | BClass | BSub | BSub2 => true | _ => false end
   | _ => true
   end.
 
 Definition all_decos := [DAsynq; DPure; DProxy; DProxyPure; DPair; DWrap; DDedup; DRetry; DLru; DCpi].
-Definition all_bindings := [BFunc; BInst; BClass; BSub; BCmClass; BCmInst; BCmSub; BSmClass; BSmInst].
+Definition all_bindings := [BFunc; BInst; BClass; BSub; BCmClass; BCmInst; BCmSub; BSmClass; BSmInst; BSub2; BCmSub2; BCmSubInst].
 Definition all_forms := [Sync; AsynqValue; YieldAsynq; AsyncCall; YieldDirect; ViaGetAsync; ViaGetAsyncOrSync].
 Definition all_shapes := [BPlain; BGenConst; BGenTask; BBatch; BPlainOwn; BGenOwn].
 Definition all_retstyles := [RetReturn; RetResult].
 Definition all_bodykinds := map (fun p => BK (fst p) (snd p)) (list_prod all_shapes all_retstyles).
 Definition all_ctxs := [CTop; CGen; CPlain; CNested].
 
+(* ---- a history of lookups / calls of ONE decorated attribute through the class hierarchy ----
+   A warm-up is an earlier use of the same attribute through path b: just the lookup (K.m), or a call
+   in one of the forms with the single positional value v (the instance first for C.m(obj, v)). *)
+Inductive wact := WGet | WSync | WAsynq | WAsyncCall.
+Definition wform (a : wact) : option form :=
+  match a with WGet => None | WSync => Some Sync | WAsynq => Some AsynqValue | WAsyncCall => Some AsyncCall end.
+Definition explicit_inst (A : Type) (b : binding) : list (arg A) :=
+  match b with BClass => [AObj RObj] | _ => [] end.
+
+Section Trace.
+  Variable A : Type.
+  Variable raises : A -> bool.
+  Variables dflt_b dflt_k : A.
+  Definition warm : Type := binding * wact * A.
+  Definition warm_path (w : warm) : binding := fst (fst w).
+
+  (* the outcome of one warm-up made (at top level) after the lookups hs; None for a bare lookup *)
+  Definition warm_out (hs : list binding) (d : deco) (bk : bodykind) (w : warm)
+    : option (status * list (call A) * res A) :=
+    let '(b, a, v) := w in
+    match wform a with
+    | None => None
+    | Some f => Some (invoke A raises dflt_b dflt_k CTop hs d b f (explicit_inst A b ++ [AVal v]) [] bk)
+    end.
+
+  (* the warm-ups in order: each sees the lookups made by all earlier ones *)
+  Fixpoint run_warm (hs : list binding) (d : deco) (bk : bodykind) (ws : list warm) :=
+    match ws with
+    | [] => []
+    | w :: r => warm_out hs d bk w :: run_warm (hs ++ [warm_path w]) d bk r
+    end.
+End Trace.
+
 (* entry point of the correspondence: A := Z, the body raises on a = 99, defaults 20 and 30;
-   for BClass the instance is passed explicitly unless explicit = false; every form is executed in
-   context cx *)
+   for BClass the instance is passed explicitly unless explicit = false; the warm-ups ws are made
+   first (top level, same callable), then every form is executed in context cx *)
 Definition run_case (d : deco) (b : binding) (explicit : bool) (pos : list Z) (kw : list (kname * Z)) (bk : bodykind)
-                    (cx : ctx) :=
+                    (cx : ctx) (ws : list (binding * wact * Z)) :=
+  let hs := map (warm_path Z) ws in
   let upos := (match b with BClass => if explicit then [AObj RObj] else [] | _ => [] end) ++ map AVal pos in
   let ukw := map (fun p => (fst p, AVal (snd p))) kw in
-  (map (fun f => invoke_ctx Z (fun z => z =? 99) 20 30 cx d b f upos ukw bk) all_forms,
-   (is_async d b, is_pure d b, has_async d b, get_async_kind d b, get_async_or_sync_kind d b)).
+  (map (fun f => invoke_ctx Z (fun z => z =? 99) 20 30 cx hs d b f upos ukw bk) all_forms,
+   (is_async hs d b, is_pure hs d b, has_async hs d b, get_async_kind hs d b, get_async_or_sync_kind hs d b),
+   run_warm Z (fun z => z =? 99) 20 30 [] d bk ws).
